@@ -13,6 +13,12 @@ E = {
  "C13": ("Partition theorem for every thread-slicing loop of the library, for all row and thread counts, proved over loops REGENERATED from the C source on each run (T-leaf) via per-site equivalence lemmas to two canonical forms; disjoint per-row writes commute (any interleaving at row granularity = sequential); the regenerated condensed index (size_t wrap explicit) is injective, in range and symmetric for n < 2^32. Exhaustive sweep rows 0..40 x threads 1..24 on implementation and model.",
          TB + "T-leaf translator (clang JSON AST -> Gallina; ceil((double)a/(double)b) read as ceiling division), pthread fork/join modelled at row-step granularity; metric axioms (triangle inequality etc.) checked numerically, not yet proved.",
          "Coq proofs over source-regenerated integer model (translator) + exhaustive implementation sweep + binary64 distance correspondence"),
+ "C01": ("Theorems over any real closed field for NIPALS deflation sequences, valid after ANY number of inner iterations: loadings orthonormal, scores = successive projections, E0 = T P' + E_a, E_a P = 0, Pythagoras (sums of squares add up; explained sum <= total; = total and E_a = 0 when all components are taken). The EXECUTABLE inner step of the model (same Gallina code that runs on binary64 against the library) is proved to return a unit loading in the row space of the residual and t = E p, which are exactly the hypotheses of the sequence theorems. Convergence threshold tied to the source (T-params). Model vs library: scores, loadings, dmodx, variances, statistics, predicted scores, back-transformation and iteration counts, for 7 scalings and 1..16 threads; theorem statements evaluated on the library output by an independent numpy oracle.",
+         TB + "hand transcription of pca.c (validated per run incl. inner iteration counts); PARTIAL: the induction over components chaining the step refinement into the sequence theorems for the whole pca_fit, and monotonicity of explained variances (spectral; validated numerically) are not proved; rounding compared not bounded.",
+         "Coq/MathComp theorems on deflation sequences + refinement proof of the executable NIPALS step + binary64 model-vs-library correspondence"),
+ "C02": ("Proved: a fixed point of the documented NIPALS step is an eigenpair of E'E; a-posteriori eigen-residual bound from the documented criterion (Cauchy–Schwarz); the inner loop is a power iteration on E'E when p is cleared and on I+E'E when it is not, whose contraction is >= 1 - lambda1 whatever the spectral gap (the formal content of the defect found and fixed); the executable step is the documented step; the compiled criterion is 1e-10. Validated against an independent eigen-solver on U diag(s) V' + offsets with separated spectra, all scalings, magnitudes 1e-3..30, and under row/column permutations and rotations.",
+         TB + "PARTIAL: global convergence to the k-th largest eigenvector and permutation/rotation equivariance are not theorems (validated with numpy.linalg.eigh as oracle); model correspondence is exercised in C01.",
+         "Coq/MathComp spectral lemmas (fixed point, residual bound, power-iteration matrix) + independent eigen-solver oracle on the library"),
  "C06": ("For ALL worker scripts, worker counts and interleavings of their random-number calls: with thread-local generator state every finished worker has drawn exactly its sequential stream (theorem, by an invariant over schedule steps); with shared state a concrete schedule refutes it (theorem by vm_compute). Decision form over the STORAGE CLASS and the generator functions regenerated from numeric.c each run; the schedule model is replayed on the library through the RNG yield hook for every interleaving of 2-3 small workers, and the group generator / bootstrap CV are run under imposed and OS schedules.",
          TB + "T-leaf translator (RNG functions, storage class from clang's VarDecl.tls), atomicity of one RNG call (hook at call entry); word tearing, compiler reordering and C11 data-race UB not modelled (partial: hardware-level races).",
          "Coq invariant proof over all schedules on a source-regenerated RNG model + exhaustive small-schedule replay through a yield hook"),
